@@ -124,6 +124,9 @@ type inst struct {
 	lastAck   map[int]int // client -> unit of the last ACK still believed held
 	xid       uint32
 	start     time.Time
+	// history digest that only refines node identity (never an oracle)
+	offAge map[string]int
+	decl   map[string]bool
 }
 
 func (s *Sys) New() core.Instance {
@@ -144,7 +147,7 @@ func (s *Sys) New() core.Instance {
 	if err != nil {
 		panic(err)
 	}
-	return &inst{s: s, srv: srv, pool: p, conn: &capConn{}, lastOffer: map[int]int{}, lastAck: map[int]int{}, start: time.Now()}
+	return &inst{s: s, srv: srv, pool: p, conn: &capConn{}, lastOffer: map[int]int{}, lastAck: map[int]int{}, start: time.Now(), offAge: map[string]int{}, decl: map[string]bool{}}
 }
 
 func (in *inst) build(c int, alt bool, mt dhcpv4.MessageType, reqIP net.IP, ciaddr net.IP) *dhcpv4.DHCPv4 {
@@ -205,6 +208,7 @@ func (in *inst) Apply(ev core.Event) map[string]any {
 		rt, ru := in.send(in.build(c, op == "DISCALT", dhcpv4.MessageTypeDiscover, nil, nil))
 		if rt == "OFFER" {
 			in.lastOffer[c] = ru
+			in.offAge[fmt.Sprintf("%d=%d", c, ru)] = 0
 		}
 		return out(rt, ru, -1, false)
 	case "REQSEL", "REQSELALT":
@@ -241,16 +245,23 @@ func (in *inst) Apply(ev core.Event) map[string]any {
 		if !ok || o < 0 {
 			return out("none", -1, -1, true)
 		}
+		in.decl[fmt.Sprintf("%d", o)] = true
 		rt, ru := in.send(in.build(c, false, dhcpv4.MessageTypeDecline, s.unitIP(o), nil))
 		delete(in.lastAck, c)
 		return out(rt, ru, o, false)
 	case "DECLU": // a DECLINE naming an arbitrary address
+		in.decl[fmt.Sprintf("%d", u)] = true
 		rt, ru := in.send(in.build(c, false, dhcpv4.MessageTypeDecline, s.unitIP(u), nil))
 		return out(rt, ru, u, false)
 	case "INFORM":
 		rt, ru := in.send(in.build(c, false, dhcpv4.MessageTypeInform, nil, s.unitIP(2)))
 		return out(rt, ru, -1, false)
 	case "ADV":
+		for k, v := range in.offAge {
+			if v < 2 {
+				in.offAge[k] = v + 1
+			}
+		}
 		time.Sleep(leaseTime/2 + time.Second)
 		synctest.Wait()
 		return out("none", -1, -1, false)
@@ -329,7 +340,7 @@ func (in *inst) Fingerprint() string {
 		a, ok2 := in.lastAck[c]
 		lo = append(lo, fmt.Sprintf("%d:%v%d,%v%d", c, ok1, o, ok2, a))
 	}
-	return strings.Join(parts, ";") + "|A:" + strings.Join(al, ",") + "|V:" + strings.Join(av, ",") + "|U:" + strings.Join(ps.Unavailable, ",") + "|H:" + strings.Join(lo, ";")
+	return strings.Join(parts, ";") + "|A:" + strings.Join(al, ",") + "|V:" + strings.Join(av, ",") + "|U:" + strings.Join(ps.Unavailable, ",") + "|H:" + strings.Join(lo, ";") + core.Fingerprint(in.offAge, nil) + core.Fingerprint(in.decl, nil)
 }
 
 // Probe: which usable addresses can fresh clients still obtain (DISCOVER until no OFFER)?
